@@ -36,6 +36,8 @@ RULE = ("pairs enumerated as (A variant, shape), all distinct; each pair is run 
         "after every step (so every history of length <= k is compared once); 'states' = distinct (pair, A bytecode valid?, B bytecode valid?, A still "
         "loaded?) configurations reached; non-trivial = the shape brings at least one macro into B and the history loads B from bytecode at least once")
 ASSUMPTIONS = [
+    "whether loading B from bytecode imports A at all is not documented (a B that received no macros has no reason to): observed, and A is required "
+    "to be compiled exactly when it IS imported anew without valid bytecode",
     "macro sets, export lists, shapes and history operations as listed; modules have no compile-time side effects; touch = new mtime (whole seconds), same content",
     "unspecified: whether `(require A)` / `(require A :as P)` include NON-exported macros of A (docs say 'every macro' but define export lists only for *): "
     "such names may or may not be present, are not used by B, and must only be the same in every load",
@@ -44,8 +46,8 @@ ASSUMPTIONS = [
 ]
 
 BOUNDS = {
-    "quick": dict(k=3, sub_shapes="all", ext_sub=True),
-    "thorough": dict(k=4, sub_shapes="all", ext_sub=True),
+    "quick": dict(k=2),
+    "thorough": dict(k=3),
 }
 TIME_CAP = {"quick": 900, "thorough": 3000}
 
@@ -145,6 +147,7 @@ def _observe(pair, mod):
 
 def run_pair_history(ai, shape, history):
     """-> (records, pair)"""
+    import sys
     from mc.ref import rc_modload as M
     from mc.ref import rc_reqmodel as Q
     pair = Pair(ai, shape)
@@ -157,9 +160,17 @@ def run_pair_history(ai, shape, history):
                     M.touch(pair.b_path)
                 if op == "TA":
                     M.touch(pair.a_path)
-                exp_comp = model.step(op)
+                model.touch(op)
+                b_from_bytecode = model.valid["B"]
                 drop = () if op == "IB" else tuple(n for n in (pair.a_name, pair.pkg) if n)
+                for n in drop:
+                    sys.modules.pop(n, None)
+                a_before = sys.modules.get(pair.a_name)
                 mod, exc, compiled, other = M.load(pair.b_name, drop=drop)
+                a_after = sys.modules.get(pair.a_name)
+                a_imported = a_after is not None and a_after is not a_before
+                state_before = (model.valid["A"], model.valid["B"], a_before is not None)
+                exp_comp = model.step(a_imported)
                 comp = set()
                 for p in compiled:
                     if p == pair.a_path:
@@ -168,7 +179,8 @@ def run_pair_history(ai, shape, history):
                         comp.add("B")
                     else:
                         comp.add(p)
-                rec = dict(step=step, op=op, compiled=sorted(comp), exp_compiled=sorted(exp_comp), stderr=other[-300:],
+                rec = dict(step=step, op=op, compiled=sorted(comp), exp_compiled=sorted(exp_comp), stderr=other[-300:], a_imported=a_imported,
+                           from_bytecode=b_from_bytecode, state_before=state_before,
                            exc=None if exc is None else "%s: %s" % (type(exc).__name__, str(exc)[:200]))
                 if exc is None:
                     rec["vals"], rec["table"], rec["usable"], rec["readers"] = _observe(pair, mod)
@@ -185,7 +197,7 @@ def judge_pair(pair, history, recs):
     problems = []
     first_table = None
     for r in recs:
-        from_bc = "B" not in r["exp_compiled"]
+        from_bc = r["from_bytecode"]
         where = dict(step=str(r["step"]), op=r["op"], shape=pair.shape, load=("bytecode" if from_bc else "source"),
                      a="%s|%s" % (",".join(pair.ms), "default" if pair.export is None else ",".join(pair.export)))
         ctx = "step %d (%s) of history %s, B loaded from %s\n%s" % (r["step"], r["op"], history, where["load"], pair.describe())
@@ -255,18 +267,16 @@ def _pair_shard(acc, tier, ai, shape):
         acc.evaluations += len(recs)
         problems = judge_pair(pair, h, recs)
         bad = int(problems[0]["step"]) if problems else None
-        model = Q.CacheModel()
         for r in recs:
-            cfgs.add((model.valid["A"], model.valid["B"], model.a_loaded and h[r["step"]] == "IB"))
-            model.step(h[r["step"]])
+            cfgs.add(tuple(r["state_before"]))
             pre = tuple(h[:r["step"] + 1])
             if pre in seen:
                 continue
             seen.add(pre)
             acc.traces += 1
             acc.transitions += 1
-            acc.outcome("compiled=%s" % "+".join(r["compiled"]) if r["exc"] is None else "raised")
-            if "B" not in r["exp_compiled"]:
+            acc.outcome(("compiled=%s,A-imported=%s" % ("+".join(r["compiled"]), r["a_imported"])) if r["exc"] is None else "raised")
+            if r["from_bytecode"]:
                 any_bc = True
             if bad is not None and r["step"] == bad:
                 p = dict(problems[0])
